@@ -26,7 +26,7 @@ def sh(cmd, **kw):
 def main():
     sid, wt, prop = sys.argv[1:4]
     checks = sys.argv[4:] or ['C%02d' % i for i in range(1, 21)]
-    out = os.path.join(VERIF, 'seeded', sid)
+    out = os.path.join(VERIF, os.environ.get('SEED_KIND', 'seeded'), sid)     # SEED_KIND=benign: behaviour-preserving changes
     os.makedirs(out, exist_ok=True)
     old = {}
     if wt == '-':          # re-run checks for an already recorded change
